@@ -97,9 +97,15 @@ class Route:
         """
         from exabgp.bgp.message.update.attribute.collection import AttributeCollection
 
+        from exabgp.bgp.message.update.attribute.attribute import Attribute
+
         merged = AttributeCollection()
         # First add extra attributes
         for code, attr in extra_attrs.items():
+            if code == Attribute.CODE.EXTENDED_COMMUNITY:
+                # add() below merges our own extended communities INTO this object:
+                # it has to be ours, not the one the caller goes on sharing between routes
+                attr = attr.__class__(bytes(attr._packed))
             merged.add(attr)
         # Then add our attributes (these take precedence)
         for code, attr in self.attributes.items():
